@@ -10,11 +10,11 @@
 (declare-fun firstDoc (AH_Cursor Slice) Cursor)
 (declare-fun firstIdx (AH_Cursor Slice) Int)
 (assert (forall ((h AH_Cursor) (s Slice)) (! (=> (> (slen_ s) 0)
-   (and (<= 0 (firstIdx h s)) (< (firstIdx h s) (slen_ s)) (= (firstDoc h s) (select (select h (sarr s)) (+ (soff s) (firstIdx h s))))))
+   (and (<= 0 (firstIdx h s)) (< (firstIdx h s) (slen_ s)) (= (firstDoc h s) (at_Cursor h s (firstIdx h s)))))
    :pattern ((firstDoc h s)))))
 (assert (forall ((h AH_Cursor) (s Slice) (k Int)) (! (=> (and (<= 0 k) (< k (slen_ s)))
-   (<= (pos (firstDoc h s)) (pos (select (select h (sarr s)) (+ (soff s) k)))))
-   :pattern ((firstDoc h s) (select (select h (sarr s)) (+ (soff s) k))))))
+   (<= (pos (firstDoc h s)) (pos (at_Cursor h s k))))
+   :pattern ((firstDoc h s) (at_Cursor h s k)))))
 (define-fun toStr ((h AH_Cursor) (v Val)) Str
   (ite ((_ is VStr) v) (vstr v)
   (ite ((_ is VBool) v) (ite (vbool v) "true" "false")
